@@ -11,6 +11,12 @@ CHECKS = {
   level="Generated-input search: every ordered pair of types up to constructor depth 1 over a 16-atom alphabet under 8 setting combinations is enumerated completely (depth 2 exhaustively in the thorough tier), random deeper struct pairs with field settings come from rapid generators; each is decided by real per-converter generation and compared, in both directions, with an independent model of the documented rules. Exploration, not proof: beyond the enumerated bound only sampled.",
   note="Trusts the rule model (harness/model) as a faithful reading of the docs, go/packages type information, and that per-converter generation equals the verdict of a whole run restricted to that converter. Panics are C13's business and counted apart.",
   design="5/C03"),
+ "C13": dict(
+  engine="E-gen",
+  technique="property-based fuzzing (rapid grammar+mutation directive generator, full-type-grammar program generator) with a no-panic / no-hang / non-empty-diagnostic oracle; crash journaling and fresh-process confirmation",
+  level="Generated-input search over directive texts at every directive position and over programs of the full Go type grammar; every case must end in output or a diagnostic, panics are caught by recover(), hangs by a generous guard, process deaths (stack overflow) by journaling the case and re-running it alone. Exploration: finds panics that exist in the sampled region, proves nothing beyond it.",
+  note="In-process evaluation through the verif hook config.ParseWithLoader for speed; the non-hook path (cli -> GenerateConverters) is exercised by the E-cli checks. The 'diagnostic names the offending declaration' clause is recorded as a label only.",
+  design="5/C13"),
 }
 
 def main():
